@@ -480,6 +480,33 @@ class deadline:
         return False
 
 
+_UNJUDGED_HUNG = set()
+
+
+def unjudged(ctx, fn, *args, **kwargs):
+    """A call the property does not speak about (rejected / meaningless arguments), made between judged calls:
+    the result is not judged and exceptions are swallowed; what matters is that judged calls made afterwards are as
+    right as before (state left behind by an exception path, a consumed iterator, a relaxed tolerance...)."""
+    import warnings
+    ctx.count('unjudged_calls_before_a_judged_one')
+    key = getattr(fn, '__name__', repr(fn))
+    if key in _UNJUDGED_HUNG:
+        ctx.count('unjudged_call_skipped_after_nontermination')
+        return
+    try:
+        with deadline(10), warnings.catch_warnings():
+            warnings.simplefilter('ignore')
+            fn(*args, **kwargs)
+    except DidNotReturn:
+        # not a verdict (the call is outside what the property speaks about); do not spend the run on it
+        _UNJUDGED_HUNG.add(key)
+        ctx.count('unjudged_call_did_not_return_in_10s')
+    except Inconclusive:
+        raise
+    except (Exception, SystemExit) as e:
+        ctx.count('unjudged_call_raised:' + type(e).__name__)
+
+
 # --------------------------------------------------------------------------------------------
 # ambient workload: the repository's own tests executed with the monitors attached
 # --------------------------------------------------------------------------------------------
